@@ -2799,6 +2799,17 @@ theorem v1_decode_loop (issuer : Str) (opq : V1.Opq) (ps : List Int) (i : Int) (
   | nil => simp
   | cons p ps ih => simp [ih, Bool.or_assoc]
 
+theorem v1_verify (opq : V1.Opq) (cd : V1.T_ClaimsData) (text : Str) (sig : List Int) :
+    V1.ClaimsData_Verify cd text sig opq = some
+      (match opq.nkeys_FromPublicKey cd.f_Issuer, opq.nkeys_Decode (opq.nkeys_Prefix cd.f_Issuer) (strBytes cd.f_Issuer) with
+       | some kp, some raw => decide (len raw = 32) && !opq.KeyPair_Verify kp (strBytes text) sig
+       | _, _ => false) := by
+  unfold V1.ClaimsData_Verify
+  cases h1 : opq.nkeys_FromPublicKey cd.f_Issuer <;>
+    cases h2 : opq.nkeys_Decode (opq.nkeys_Prefix cd.f_Issuer) (strBytes cd.f_Issuer) <;> simp
+  rename_i kp raw
+  by_cases h3 : len raw = 32 <;> cases h4 : opq.KeyPair_Verify kp (strBytes text) sig <;> simp [h3, h4]
+
 /-- the issuer the v1 role loop reads through `Claims()` -/
 def v1Issuer : V1.I_Claims → Str
   | .AccountClaims v => v.f_ClaimsData.f_Issuer
@@ -2820,7 +2831,7 @@ theorem v1_decode_accepts (opq : V1.Opq) (tok : Str) (t : V1.I_Claims)
       opq.parseHeaders hd = some (hdr, false) ∧
       opq.parseClaims p (some t) = some (some t', false) ∧
       opq.decodeString s = some (sig, false) ∧
-      opq.Claims_Verify t' p sig = true ∧
+      V1.I_Claims.Verify t' p sig opq = some true ∧
       (match V1.I_Claims.ExpectedPrefixes t' with
        | some (some ps) => ps.any (prefixOk1 opq (v1Issuer t')) = true
        | _ => True) := by
@@ -2854,6 +2865,9 @@ theorem v1_decode_accepts (opq : V1.Opq) (tok : Str) (t : V1.I_Claims)
     | none => simp at h
     | some t' =>
       simp only [Option.bind_some] at h
+      obtain ⟨bp, hbp⟩ : ∃ b, V1.I_Claims.Verify t' p sig opq = some b := by
+        cases t' <;> simp only [V1.I_Claims.Verify, v1_verify] <;> exact ⟨_, rfl⟩
+      simp only [hbp, Option.bind_some] at h
       cases t' <;>
         simp only [V1.I_Claims.ExpectedPrefixes, V1.AccountClaims_ExpectedPrefixes, V1.OperatorClaims_ExpectedPrefixes,
           V1.UserClaims_ExpectedPrefixes, V1.ActivationClaims_ExpectedPrefixes, V1.ClusterClaims_ExpectedPrefixes,
@@ -2869,16 +2883,47 @@ theorem v1_decode_accepts (opq : V1.Opq) (tok : Str) (t : V1.I_Claims)
              · simp at h
              · rename_i hV hA
                simp only [Bool.not_eq_true', Bool.not_eq_false] at hV hA
-               refine ⟨hd, p, s, hdr, _, sig, rfl, hph, hpc, hds, hV, ?_⟩
+               refine ⟨hd, p, s, hdr, _, sig, rfl, hph, hpc, hds, (by rw [hbp, hV]), ?_⟩
                simp only [V1.I_Claims.ExpectedPrefixes, V1.AccountClaims_ExpectedPrefixes, V1.OperatorClaims_ExpectedPrefixes,
                  V1.UserClaims_ExpectedPrefixes, V1.ActivationClaims_ExpectedPrefixes, V1.ClusterClaims_ExpectedPrefixes,
                  V1.ServerClaims_ExpectedPrefixes, v1Issuer, Option.pure_def]
                exact hA)
           | (rename_i hV
              simp only [Bool.not_eq_true', Bool.not_eq_false] at hV
-             refine ⟨hd, p, s, hdr, _, sig, rfl, hph, hpc, hds, hV, ?_⟩
+             refine ⟨hd, p, s, hdr, _, sig, rfl, hph, hpc, hds, (by rw [hbp, hV]), ?_⟩
              simp [V1.I_Claims.ExpectedPrefixes, V1.GenericClaims_ExpectedPrefixes])
   · have hl : ¬ ((l.length : Int) + 1 + 1 + 1 + 1 = 3) := by omega
     simp [hsp, len, hl] at h
+
+/-- the version-1 `Verify`, through the interface, is `ClaimsData.Verify` under the claim's own issuer -/
+theorem v1_verify_dispatch (opq : V1.Opq) (c : V1.I_Claims) (text : Str) (sig : List Int) :
+    V1.I_Claims.Verify c text sig opq = some
+      (match opq.nkeys_FromPublicKey (v1Issuer c),
+             opq.nkeys_Decode (opq.nkeys_Prefix (v1Issuer c)) (strBytes (v1Issuer c)) with
+       | some kp, some raw => decide (len raw = 32) && !opq.KeyPair_Verify kp (strBytes text) sig
+       | _, _ => false) := by
+  cases c <;> simp only [V1.I_Claims.Verify, v1_verify, v1Issuer]
+
+/-- **C19 down to the key**: what the translated version-1 `Decode` accepts was verified, over the bytes of the payload
+chunk, by a key pair obtained from the filled target's own issuer string, which decodes to a 32-byte key -/
+theorem v1_decode_authentic (opq : V1.Opq) (tok : Str) (t : V1.I_Claims)
+    (h : V1.Decode tok (some t) opq = some false) :
+    ∃ hd p s t' sig kp raw,
+      splitOn '.' tok = [hd, p, s] ∧
+      opq.parseClaims p (some t) = some (some t', false) ∧
+      opq.decodeString s = some (sig, false) ∧
+      opq.nkeys_FromPublicKey (v1Issuer t') = some kp ∧
+      opq.nkeys_Decode (opq.nkeys_Prefix (v1Issuer t')) (strBytes (v1Issuer t')) = some raw ∧ len raw = 32 ∧
+      opq.KeyPair_Verify kp (strBytes p) sig = false := by
+  obtain ⟨hd, p, s, hdr, t', sig, h1, _, h3, h4, h5, _⟩ := v1_decode_accepts opq tok t h
+  rw [v1_verify_dispatch] at h5
+  cases hk : opq.nkeys_FromPublicKey (v1Issuer t') with
+  | none => simp [hk] at h5
+  | some kp =>
+    cases hr : opq.nkeys_Decode (opq.nkeys_Prefix (v1Issuer t')) (strBytes (v1Issuer t')) with
+    | none => simp [hk, hr] at h5
+    | some raw =>
+      simp only [hk, hr, Option.some.injEq, Bool.and_eq_true, decide_eq_true_eq, Bool.not_eq_true'] at h5
+      exact ⟨hd, p, s, t', sig, kp, raw, h1, h3, h4, hk, hr, h5.1, h5.2⟩
 
 end Jwt.FnTie
